@@ -1233,13 +1233,101 @@ func (c *Ctx) ownSites(u FuncUnit) []ownSite {
 	return sites
 }
 
-// exprShape renders a slice expression without local variable names.
+// exprShape renders an expression for use in an obligation's construct
+// without the names a refactoring is free to change: a local variable is `_`,
+// a parameter `$k` (the receiver `$0`), a bound or index that is not a constant
+// `…`; field, function and constant names are kept.
 func exprShape(info *types.Info, e ast.Expr) string {
-	s := types.ExprString(e)
-	if len(s) > 40 {
-		s = s[:40]
+	var sh func(e ast.Expr) string
+	bound := func(e ast.Expr) string {
+		if e == nil {
+			return ""
+		}
+		if tv, ok := info.Types[e]; ok && tv.Value != nil {
+			return tv.Value.ExactString()
+		}
+		return "…"
+	}
+	sh = func(e ast.Expr) string {
+		switch x := ast.Unparen(e).(type) {
+		case *ast.Ident:
+			o := info.Uses[x]
+			if o == nil {
+				o = info.Defs[x]
+			}
+			if v, ok := o.(*types.Var); ok && !v.IsField() && v.Pkg() != nil && v.Parent() != v.Pkg().Scope() {
+				// a parameter / receiver of the enclosing function, or a local
+				if k, ok := paramIndex(info, v); ok {
+					return fmt.Sprintf("$%d", k)
+				}
+				return "_"
+			}
+			return x.Name
+		case *ast.SelectorExpr:
+			if _, isPkg := info.Uses[shapeIdentOf(x.X)].(*types.PkgName); isPkg {
+				return shapeIdentOf(x.X).Name + "." + x.Sel.Name
+			}
+			return sh(x.X) + "." + x.Sel.Name
+		case *ast.IndexExpr:
+			return sh(x.X) + "[" + bound(x.Index) + "]"
+		case *ast.SliceExpr:
+			s := sh(x.X) + "[" + bound(x.Low) + ":" + bound(x.High)
+			if x.Slice3 {
+				s += ":" + bound(x.Max)
+			}
+			return s + "]"
+		case *ast.CallExpr:
+			var as []string
+			for _, a := range x.Args {
+				as = append(as, sh(a))
+			}
+			return sh(x.Fun) + "(" + strings.Join(as, ", ") + ")"
+		case *ast.StarExpr:
+			return "*" + sh(x.X)
+		case *ast.UnaryExpr:
+			return x.Op.String() + sh(x.X)
+		case *ast.BasicLit:
+			return x.Value
+		}
+		return "?"
+	}
+	s := sh(e)
+	if len(s) > 60 {
+		s = s[:60]
 	}
 	return s
+}
+
+func shapeIdentOf(e ast.Expr) *ast.Ident {
+	id, _ := ast.Unparen(e).(*ast.Ident)
+	return id
+}
+
+var paramIndexCache = map[*types.Info]map[*types.Var]int{}
+
+// paramIndex: v is a parameter (index from 1) or the receiver (0) of a
+// declared function of the package info describes.
+func paramIndex(info *types.Info, v *types.Var) (int, bool) {
+	m, ok := paramIndexCache[info]
+	if !ok {
+		m = map[*types.Var]int{}
+		for _, o := range info.Defs {
+			fn, ok := o.(*types.Func)
+			if !ok {
+				continue
+			}
+			sig := fn.Type().(*types.Signature)
+			if sig.Recv() != nil {
+				m[sig.Recv()] = 0
+			}
+			for i := 0; i < sig.Params().Len(); i++ {
+				m[sig.Params().At(i)] = i + 1
+			}
+		}
+		paramIndexCache[info] = m
+	}
+	k, ok := m[v]
+	return k, ok
 }
 
 // unclamp strips a clampCap(...) call around a slice expression.
